@@ -284,3 +284,123 @@ Proof.
   split; [exact HO|]. apply strict_ok_chron; [exact (Hst eq_refl)|].
   pose proof (eo_ntx _ _ _ _ _ _ _ _ _ HO) as Hn. rewrite rev_length, cinf_rev in Hn. exact Hn.
 Qed.
+
+(* ================================================================== *)
+(* the statements of Props/C04esis.v, C09esis.v, C10esis.v *)
+Section Corollaries.
+Variable g : graph.
+Hypothesis Hnd : NoDup (gnodes g).
+Hypothesis Hadj : forall u v, In v (gadj g u) -> In v (gnodes g).
+
+Definition rows_spec (tmin : Q) (tmax : xtime) (i0 : list node) (out : simout) (evs : list ev) : Prop :=
+  traj g SIS tmin tmax (so_rows out) /\
+  (exists rs, so_rows out = (tmin, [order g - Z.of_nat (length i0); Z.of_nat (length i0)]%Z) :: rs) /\
+  so_rows out = log_arrays (gnodes g) [stS; stI] tmin (st_init i0 []) evs /\
+  Forall (fun e => xlt (ev_time e) tmax = true /\ In (ev_node e) (gnodes g) /\ (ev_st e = stI \/ ev_st e = stS)) evs.
+
+Lemma eo_rows_spec : forall tmin tmax i0 chk full out evs txs,
+  esis_output g tmin tmax i0 chk full out evs txs -> rows_spec tmin tmax i0 out evs.
+Proof. intros tmin tmax i0 chk full out evs txs [A B C D _ _ _ _ _ _]. repeat split; assumption. Qed.
+
+Theorem fsis_C04 : forall tau gamma tmax tmin i0 full fuel ds out tr,
+  xlt tmin tmax = true -> NoDup i0 -> incl i0 (gnodes g) ->
+  exec (fast_SIS g tau gamma tmax (Some i0) None tmin full fuel) ds [] = (Ok out, tr) ->
+  exists evs, rows_spec tmin tmax i0 out evs.
+Proof.
+  intros tau gamma tmax tmin i0 full fuel ds out tr Hv Hi Hinc H.
+  destruct (fsis_output g Hnd Hadj tau gamma tmax tmin i0 full fuel ds out tr Hv Hi Hinc H) as [evs [txs [HO _]]].
+  exists evs. eapply eo_rows_spec. exact HO.
+Qed.
+
+Theorem nmsis_C04 : forall dur delays tmax tmin i0 full fuel out,
+  xlt tmin tmax = true -> NoDup i0 -> incl i0 (gnodes g) -> rules_ok dur delays ->
+  nm_run g dur delays tmax tmin full fuel i0 = Ok out ->
+  exists evs, rows_spec tmin tmax i0 out evs.
+Proof.
+  intros dur delays tmax tmin i0 full fuel out Hv Hi Hinc Hr H.
+  destruct (nmsis_output g Hnd Hadj dur delays tmax tmin i0 full fuel out Hv Hi Hinc Hr H) as [evs [txs HO]].
+  exists evs. eapply eo_rows_spec. exact HO.
+Qed.
+
+(* C09: full data *)
+Definition trans_spec (strong : bool) (tmin : Q) (i0 : list node) (out : simout) (evs : list ev) (txs : list tx) : Prop :=
+  (exists fd, so_full out = Some fd /\ fd_trans fd = map (fun u => (tmin, None, u)) i0 ++ txs) /\
+  so_rows out = log_arrays (gnodes g) [stS; stI] tmin (st_init i0 []) evs /\
+  length txs = cinf evs /\
+  valid_logT g (st_init i0 []) evs txs = true /\
+  (strong = true -> valid_logb g SIS (st_init i0 []) evs txs = true /\ strict_chron evs txs).
+
+Theorem fsis_C09 : forall tau gamma tmax tmin i0 fuel ds out tr,
+  xlt tmin tmax = true -> NoDup i0 -> incl i0 (gnodes g) ->
+  exec (fast_SIS g tau gamma tmax (Some i0) None tmin true fuel) ds [] = (Ok out, tr) ->
+  exists evs txs, trans_spec true tmin i0 out evs txs.
+Proof.
+  intros tau gamma tmax tmin i0 fuel ds out tr Hv Hi Hinc H.
+  destruct (fsis_output g Hnd Hadj tau gamma tmax tmin i0 true fuel ds out tr Hv Hi Hinc H) as [evs [txs [HO Hs]]].
+  exists evs, txs. destruct HO as [_ B _ _ E F G T _ _]. destruct (T eq_refl) as [fd [T1 [T2 _]]].
+  split; [exists fd; split; assumption|]. split; [exact B|]. split; [exact G|]. split; [exact E|].
+  intros _. split; [apply F; reflexivity|exact Hs].
+Qed.
+
+Theorem nmsis_C09 : forall dur delays tmax tmin i0 fuel out,
+  xlt tmin tmax = true -> NoDup i0 -> incl i0 (gnodes g) -> rules_ok dur delays ->
+  nm_run g dur delays tmax tmin true fuel i0 = Ok out ->
+  exists evs txs, trans_spec false tmin i0 out evs txs.
+Proof.
+  intros dur delays tmax tmin i0 fuel out Hv Hi Hinc Hr H.
+  destruct (nmsis_output g Hnd Hadj dur delays tmax tmin i0 true fuel out Hv Hi Hinc Hr H) as [evs [txs HO]].
+  exists evs, txs. destruct HO as [_ B _ _ E F G T _ _]. destruct (T eq_refl) as [fd [T1 [T2 _]]].
+  split; [exists fd; split; assumption|]. split; [exact B|]. split; [exact G|]. split; [exact E|].
+  intro K. discriminate K.
+Qed.
+
+Theorem nmsis_C09_strict : forall dur delays tmax tmin i0 fuel out,
+  xlt tmin tmax = true -> NoDup i0 -> incl i0 (gnodes g) -> rules_ok dur delays -> rules_strict dur delays ->
+  nm_run g dur delays tmax tmin true fuel i0 = Ok out ->
+  exists evs txs, trans_spec true tmin i0 out evs txs.
+Proof.
+  intros dur delays tmax tmin i0 fuel out Hv Hi Hinc Hr Hs H.
+  destruct (nmsis_output_strict g Hnd Hadj dur delays tmax tmin i0 true fuel out Hv Hi Hinc Hr Hs H) as [evs [txs [HO Hst]]].
+  exists evs, txs. destruct HO as [_ B _ _ E F G T _ _]. destruct (T eq_refl) as [fd [T1 [T2 _]]].
+  split; [exists fd; split; assumption|]. split; [exact B|]. split; [exact G|]. split; [exact E|].
+  intros _. split; [apply F; reflexivity|exact Hst].
+Qed.
+
+(* C10 *)
+Definition summary_spec (tmin : Q) (i0 : list node) (out : simout) (evs : list ev) : Prop :=
+  exists fd, so_full out = Some fd /\
+    (increasing tmin evs = true ->
+       fd_hist fd = iv_hist (log_inv (gnodes g) [stS; stI] tmin (st_init i0 []) evs) /\
+       so_rows out = log_arrays (gnodes g) [stS; stI] tmin (st_init i0 []) evs /\
+       (gnodes g <> [] ->
+        summary (log_inv (gnodes g) [stS; stI] tmin (st_init i0 []) evs) None = Ok (so_rows out))).
+
+Lemma eo_summary_spec : forall tmin tmax i0 chk out evs txs,
+  esis_output g tmin tmax i0 chk true out evs txs -> summary_spec tmin i0 out evs.
+Proof.
+  intros tmin tmax i0 chk out evs txs [_ B _ _ _ _ _ T _ S]. destruct (T eq_refl) as [fd [T1 [_ T3]]].
+  exists fd. split; [exact T1|]. intro Hi. split; [apply T3; exact Hi|]. split; [exact B|].
+  intro Hne. apply S; assumption.
+Qed.
+
+Theorem fsis_C10 : forall tau gamma tmax tmin i0 fuel ds out tr,
+  xlt tmin tmax = true -> NoDup i0 -> incl i0 (gnodes g) ->
+  exec (fast_SIS g tau gamma tmax (Some i0) None tmin true fuel) ds [] = (Ok out, tr) ->
+  exists evs, summary_spec tmin i0 out evs.
+Proof.
+  intros tau gamma tmax tmin i0 fuel ds out tr Hv Hi Hinc H.
+  destruct (fsis_output g Hnd Hadj tau gamma tmax tmin i0 true fuel ds out tr Hv Hi Hinc H) as [evs [txs [HO _]]].
+  exists evs. eapply eo_summary_spec. exact HO.
+Qed.
+
+Theorem nmsis_C10 : forall dur delays tmax tmin i0 fuel out,
+  xlt tmin tmax = true -> NoDup i0 -> incl i0 (gnodes g) -> rules_ok dur delays ->
+  nm_run g dur delays tmax tmin true fuel i0 = Ok out ->
+  exists evs, summary_spec tmin i0 out evs.
+Proof.
+  intros dur delays tmax tmin i0 fuel out Hv Hi Hinc Hr H.
+  destruct (nmsis_output g Hnd Hadj dur delays tmax tmin i0 true fuel out Hv Hi Hinc Hr H) as [evs [txs HO]].
+  exists evs. eapply eo_summary_spec. exact HO.
+Qed.
+
+End Corollaries.
